@@ -129,6 +129,12 @@ structure LazySt where
 
 def LazySt.init (src : Option Nat) : LazySt := ⟨src, 0, false, []⟩
 
+/-- `next(self.it)`: the state with one more item pulled (and logged), or `none` for StopIteration -/
+def LazySt.next? (l : LazySt) : Option LazySt :=
+  match l.src with
+  | some n => if l.pulled < n then some { l with pulled := l.pulled + 1, log := l.log ++ [l.pulled] } else none
+  | none   => some { l with pulled := l.pulled + 1, log := l.log ++ [l.pulled] }
+
 /-- one `next(self.it)`: returns the new state (pulled one more, or finished). -/
 def LazySt.pull1 (l : LazySt) : LazySt :=
   match l.src with
